@@ -874,6 +874,11 @@ class Message(ABC):
                 # Found a non-sentinel value
                 all_sentinel = False
 
+                if isinstance(value, Message) and not value._betterproto.meta_by_field_name:
+                    # An empty message that was passed in is still sent on the wire
+                    # (pydantic dataclasses fill in fields without `__setattr__`).
+                    value._serialized_on_wire = True
+
                 if meta.group:
                     # This was set, so make it the selected value of the one-of.
                     group_current[meta.group] = field_name
